@@ -38,5 +38,5 @@ EXTRA_CLAUSES = {"term.formula15": term_formula15}
 def prove(tier, seed):
     from vt.pyvc.termproofs import prove_terms
 
-    muts = [("is_ppt", "partial_transpose(mat, [sys - 1], dim)", "partial_transpose(mat, [sys], dim)"), ("is_npt", "return not is_ppt(mat, sys, dim, tol)", "return not is_ppt(mat, sys, dim)"), ("is_ppt", "dim), tol)", "dim))")]
+    muts = [("is_ppt", "partial_transpose(mat, [sys - 1], dim)", "partial_transpose(mat, [sys], dim)"), ("is_npt", "return not is_ppt(mat, sys, dim, tol)", "return not is_ppt(mat, sys, dim)"), ("is_ppt", "dim), atol=tol)", "dim), tol)"), ("is_ppt", "dim), atol=tol)", "dim))")]
     return prove_terms(["is_ppt", "is_npt"], muts, tier, "c15", replay_clause="term.formula15")
